@@ -76,6 +76,10 @@ G_VARIANTS = (
     ('define', 'g', ('y',), (('assign', 'y', N(9)), ('assign', 'x', N(8)), ('assign', 'z', N(6)), ('return', V('y')))),
     ('define', 'g', ('z', 'x'), (('repeat', ('count', N(2)), (('assign', 'x', PLUS(V('x'), N(1))),)),
                                  ('print', V('x')), ('return', V('z')))),
+    # no parameters: assigns names the caller may hold as parameters or locals, reads globals
+    ('define', 'g', (), (('assign', 'z', N(6)), ('print', V('x')), ('print', V('y')), ('assign', 'w', N(3)),
+                         ('return', PLUS(V('x'), V('w'))))),
+    ('define', 'g', (), (('assign', 'x', N(8)), ('assign', 'z', N(5)))),
 )
 
 
@@ -93,12 +97,13 @@ def two_routines():
                             lambda s: ('if', ((N(1), (s,)),), None)):
                     st = ctx(form)
                     for params in PARAM_LISTS:
-                        body = (st, ('print', V('x')), ('print', V('y')))
+                        body = (('assign', 'z', N(41)), ('assign', 'w', N(42)), st, ('print', V('x')), ('print', V('y')),
+                                ('print', V('z')), ('print', V('w')))
                         d = ('define', 'f', params, body)
                         for fargs in itertools.product((N(5), V('y')), repeat=len(params)):
                             yield PRELUDE + (g, d) + SHOW + (('callst', 'f', fargs, False),) + SHOW
         # calls as arguments of calls, from the top level
-        for a1 in ARGS[:3]:
+        for a1 in (ARGS[:3] if k else ()):
             inner = ('call', 'g', tuple([a1] * k))
             outer_args = tuple([inner] + [V('x')] * (k - 1))
             yield PRELUDE + (g,) + (('print', ('call', 'g', outer_args)),) + SHOW
@@ -135,9 +140,19 @@ def recursion():
                         yield PRELUDE + (d,) + (('print', ('call', 'f', (N(depth),))),) + SHOW
 
 
+def zero_param_recursion():
+    for depth in (0, 1, 2, 3):
+        body = (('assign', 'n', PLUS(V('n'), N(1))), ('assign', 'mine', V('n')), ('print', V('mine')),
+                ('if', ((('bin', '<', V('n'), N(depth)), (('callst', 'f', (), False),)),), None),
+                ('print', V('mine')))
+        yield (('assign', 'n', N(0)), ('define', 'f', (), body), ('callst', 'f', (), False), ('print', V('n')))
+        wrapper = ('define', 'h', ('mine',), (('callst', 'f', (), False), ('print', V('mine'))))
+        yield (('assign', 'n', N(0)), ('define', 'f', (), body), wrapper, ('callst', 'h', (N(77),), False), ('print', V('n')))
+
+
 def programs(max_cost):
     from .static import reads_ok
-    for gen in (recursion(), two_routines(), single_routine(max_cost)):
+    for gen in (recursion(), zero_param_recursion(), two_routines(), single_routine(max_cost)):
         for p in gen:
             if reads_ok(p):          # the compile-time name rule, see lang/static.py
                 yield p
